@@ -38,6 +38,10 @@ inductive Path
   | pfile (d : Digest)
   | part (d : Digest) (n : Nat)
   | man (n : Name)
+  /-- any other file below `$OLLAMA_MODELS` that no code path addresses: files under manifests/ that
+  are not at host/namespace/model/tag depth (the lister's `*/*/*/*` does not match them or finds a
+  directory there), files outside blobs/ and manifests/ -/
+  | other (s : String)
   deriving DecidableEq, Repr
 
 structure Layer where
@@ -376,10 +380,18 @@ no readable manifest names are removed -/
 def keepAtPrune (st : Store) (p : Path) : Bool :=
   match p with
   | .man _ => true
+  | .other _ => true            -- PruneLayers only looks into blobs/
   | .blob d => referenced st d
   | _ => false
 
 def prune (st : Store) : Store := filterKeys (keepAtPrune st) st
+
+/-- DEFECT F26 mirrored: what the start-up sequence does when the models path contains a glob
+metacharacter (`[`): the pattern `<models>/manifests/*/*/*/*` handed to `filepath.Glob` then
+matches nothing, `Manifests()` returns an empty map WITHOUT error, so the prune runs and every blob
+counts as unused. (Name-based resolution opens manifests by path and is not affected.) -/
+def pruneBlind (st : Store) : Store :=
+  filterKeys (fun p => match p with | .man _ => true | .other _ => true | _ => false) st
 
 /-- `fixBlobs; if Manifests(false) succeeds then PruneLayers; PruneDirectory` -/
 def restart (st : Store) : Store := if allReadable st then prune st else st
